@@ -4,7 +4,7 @@
 //!        the record incarnation in order of first appearance); recalloc / recfree = allocations / deallocations of 64-byte-aligned
 //!        blocks seen by the harness's global allocator during the run (the connection records)
 //!        A<i> accept, A<i>! ADD failed, V<i> event seen, S<i> closed seen (stale), O<i> CAS ok (dispatched), F<i> free,
-//!        B batch end, J<i> job start, R<i> re-arm, D<i> DEL, X<i> stream drop, C<i> closed store
+//!        B batch end, J<i> job start, R<i> re-arm, D<i> DEL, X<i> stream drop, C<i> closed store, G<i> record handed back (graveyard)
 use crate::s_conn::{app, parse_response};
 use crate::util::*;
 use crate::Ctx;
@@ -251,6 +251,7 @@ pub fn run(case: &str) -> String {
             Event::EpDel(p) => toks.push(format!("D{}", idx(*p, &cur))),
             Event::EpStreamDrop(p) => { toks.push(format!("X{}", idx(*p, &cur))); dropped += 1; }
             Event::EpClosedStore(p) => toks.push(format!("C{}", idx(*p, &cur))),
+            Event::EpGrave(p) => toks.push(format!("G{}", idx(*p, &cur))),
             _ => {} // pool events of the worker pool are not part of this stream
         }
     }
